@@ -289,6 +289,15 @@ class MVL(MoveInstruction):
             ):
                 dst_func = il.sub
 
+            # MVL [--r3],(n): the destination pointer walks downwards with r3
+            # (r3 itself is pre-decremented once per byte below).
+            if (
+                isinstance(dst, EMemValueOffsetHelper)
+                and isinstance(dst.value, RegIncrementDecrementHelper)
+                and dst.value.mode == EMemRegMode.PRE_DEC
+            ):
+                dst_func = il.sub
+
             # Update destination address with wrapping for IMem8
             self._update_address_with_wrap(il, dst_reg, dst_func, dst)
 
